@@ -39,7 +39,7 @@ func normJSON(s []byte) (string, error) {
 
 func runC01(r *lib.Run) {
 	r.Rule = "trees from the schema-directed generator (seed,index) per configuration and JSON mode; non-trivial = tree has >=3 leaves; distinct by configuration+mode+leaf set"
-	r.Assume("union values are canonical (DESIGN 3.2); decimal64 values have <=15 significant digits")
+	r.Assume("union values are canonical (DESIGN 3.2); decimal64 values are float64 values whose shortest decimal form has at most fraction-digits digits after the point (up to 17 significant digits)")
 	n := r.N(400, 6000)
 	for _, cfg := range cfgsFor(r, quick3) {
 		for i := 0; i < n; i++ {
